@@ -66,9 +66,22 @@ static void fill(unsigned char *buf, uint64_t nelem, int size, int be, int is_fl
 	uint64_t base = splitmix64(salt + call);
 	uint64_t e;
 	int b;
+	/* value mode in bits 40-42 of the salt (twin: vlib/rfmodel.py gen_values): 0 pseudo-random with special patterns,
+	 * 1 all zeros, 2 one constant per call, 3 the documented fill pattern (quiet NaN / most negative), 4 a ramp */
+	int vmode = (int)((salt >> 40) & 7);
+	uint64_t mask = size == 8 ? ~0ULL : ((1ULL << (8 * size)) - 1);
+	uint64_t top = 1ULL << (8 * size - 1);
 	for (e = 0; e < nelem; e++)
 	{
-		uint64_t v = gen_value(base, e, size, is_float);
+		uint64_t v;
+		switch (vmode)
+		{
+		case 1: v = 0; break;
+		case 2: v = gen_value(base, 0, size, is_float); break;
+		case 3: v = is_float ? (size == 4 ? 0x7fc00000ULL : 0x7ff8000000000000ULL) : top; break;
+		case 4: v = (e + call) & mask; break;
+		default: v = gen_value(base, e, size, is_float);
+		}
 		for (b = 0; b < size; b++)
 		{
 			unsigned char byte = (unsigned char)((v >> (8 * b)) & 0xff);
